@@ -99,12 +99,17 @@ def esc_text(s, quote=None):
 
 
 class Ref:
-    def __init__(self, default_marker, codes, helpers=None, log=None, case_first=False, options=None):
+    def __init__(self, default_marker, codes, helpers=None, log=None, case_first=False, options=None,
+                 switch_first=False):
         self.options = dict(options or {})
         self.interp = [True]      # meta:interpolation stack (text, comments, CDATA of a subtree)
         # documentation: condition, repeat, case; implementation: case, condition, repeat.  The
         # property statement is silent, so harnesses accept either (two reference runs).
         self.case_first = case_first
+        # documentation: define, switch, condition, repeat, case; implementation: switch innermost (evaluated
+        # for every repetition).  With switch_first the value is computed once, before condition and repeat.
+        self.switch_first = switch_first
+        self._switch_value = {}
         self.default = default_marker
         self.codes = codes          # source -> compiled code object (prepared natively)
         self.helpers = dict(helpers or {})
@@ -304,6 +309,8 @@ class Ref:
             # 2. guards.  case/condition share a free bracket (docs: condition, repeat, case;
             #    implementation: case, condition, repeat) -- generators never put case and repeat on
             #    one element.
+            if self.switch_first and 'switch' in node:
+                self._switch_value[id(node)] = self.ev(node['switch'], scope)
             guards = ['condition', 'case'] if not self.case_first else ['case', 'condition']
             for g in guards:
                 if g == 'condition' and 'condition' in node:
@@ -410,7 +417,10 @@ class Ref:
         frame = scope.push()
         try:
             if 'switch' in node:
-                frame['__switch__'] = {'value': self.ev(node['switch'], scope), 'done': False}
+                if self.switch_first and id(node) in self._switch_value:
+                    frame['__switch__'] = {'value': self._switch_value[id(node)], 'done': False}
+                else:
+                    frame['__switch__'] = {'value': self.ev(node['switch'], scope), 'done': False}
             if 'replace' in node:
                 mode, e = node['replace']
                 v = self.ev(e, scope, default_ok=True)
